@@ -37,6 +37,7 @@ class Ctx:
         self.prop = prop
         self.tier = tier
         self.findings = {}
+        self.declined = []
         self.instances = {}      # rule -> {key: sample}
         self.evaluations = 0
         self.rules = {}          # rule -> description
@@ -72,10 +73,21 @@ class Ctx:
         if k not in d:
             d[k] = sample if sample is not None else key
 
-    def finding(self, rid, func, disc, what, node=None, loc=None, expect='', path=None, construct=None):
+    def finding(self, rid, func, disc, what, node=None, loc=None, expect='', path=None, construct=None, also=()):
         if node is not None:
             loc = loc or short(node.get('loc'))
             construct = construct if construct is not None else src(node)
+        # a function that has been reshaped with constructs no rule engine interprets (a standard algorithm with a lambda, a lambda kept in a local, a
+        # do-while, a goto - beyond what the reviewed inventory records for it) is not judged: what a rule "does not find" there may sit inside them
+        for fid in (func,) + tuple(also):
+            for fs in facts._LOADED.values():
+                g = fs.fns.get(fid) if isinstance(fid, str) else None
+                if g is not None and g.d.get('_opaque_new'):
+                    msg = '%s: %s uses %s, which the path / loop model does not interpret: the finding "%s" is not raised (the idiom is outside what this analysis decides)' % (
+                        rid, fid, ', '.join(sorted(set(g.d['_opaque_new']))), what[:160])
+                    if msg not in self.declined:
+                        self.declined.append(msg)
+                    return None
         f = Finding(self.prop, rid, func, disc, what, loc or '', construct or '', expect, path, self.cfg)
         k = json.dumps(f.key)
         if k in self.findings:
@@ -128,6 +140,8 @@ def run_property(prop, tier, seed=0):
             n = len(ctx.instances.get(rid, {}))
             if n < floor:
                 raise AnalysisBroken('rule %s matched %d instances, floor is %d (anchor or idiom changed)' % (rid, n, floor))
+        if ctx.declined:
+            raise AnalysisBroken('; '.join(ctx.declined[:3]) + (' (+%d more)' % (len(ctx.declined) - 3) if len(ctx.declined) > 3 else ''))
     except AnalysisBroken as e:
         status = 2
         broken_msg = str(e)
